@@ -314,6 +314,7 @@ type Opts struct {
 	TagOptions bool // json tag options omitempty / string (C02 only: the generated types cannot express them)
 	NoNamedRec bool // no `type Tree []Tree` (the SQL JSON validators refuse recursive named containers)
 	DataIgnore bool // some fields tagged gomacro-data:"ignore"
+	OddEnumValues bool // a string enum whose values need escaping (backslash, double and single quote, empty)
 }
 
 func Full() Opts {
@@ -390,6 +391,11 @@ func Random(id int, rng *rand.Rand, o Opts) *Prog {
 	sv := Basic("string")
 	// (Azure shares the value of Blue: two exported constants, one wire value)
 	add(Decl{K: "named", Name: "Color", Under: &sv, Consts: []Const{{Name: "Red", Val: `"red"`}, {Name: "Blue", Val: `"blue"`, Comment: "the blue"}, {Name: "Azure", Val: `"blue"`}, {Name: "green", Val: `"green"`}}})
+	if o.OddEnumValues {
+		add(Decl{K: "named", Name: "Sep", Under: &sv, Consts: []Const{{Name: "SepPlain", Val: `"a"`}, {Name: "SepNone", Val: `""`}, {Name: "SepBack", Val: `"C:\\temp\\new"`},
+			{Name: "SepQuote", Val: `"say \"hi\""`}, {Name: "SepTick", Val: `"it's"`}}})
+		add(Decl{K: "struct", Name: "SepHolder", Fields: []Field{{Name: "One", Type: Ref("", "Sep")}, {Name: "Many", Type: Slice(Ref("", "Sep"))}}})
+	}
 	iv := Basic("int")
 	scs := []Const{{Name: "ScoreLow", Val: "-1"}, {Name: "ScoreHigh", Val: "10"}, {Name: "ScoreTop", Val: "10"}, {Name: "ScoreMid", Val: "5"}}
 	if o.EnumUnexported && rng.Intn(2) == 0 {
